@@ -98,7 +98,7 @@ def run(ctx):
     for left, right, what in decos:
         for kind in ("lic", "con", "cop"):
             holes = ["end"] if tier == "quick" else ["start", "mid", "end"]
-            if tier == "quick" and kind == "con":
+            if tier == "quick" and kind == "con" and ("single-line" in what or "inline" in what or "frame" in what):
                 holes = ["end", "mid"]
             if tier == "quick" and kind == "cop" and "block" in what:
                 continue  # quick: copyright on single-line / inline / frame decorations only
@@ -109,7 +109,7 @@ def run(ctx):
     # two free characters on a slice
     two = [d for d in decos if d[2] in ("Python: single-line", "C: inline multi-line", "Html: inline multi-line", "ASCII-art frame", "Lisp: single-line", "Jinja: inline multi-line")] if tier == "quick" else decos
     for left, right, what in two:
-        for kind in ("lic", "con") if tier == "quick" else ("lic", "con", "cop"):
+        for kind in (("con",) if what not in ("C: inline multi-line", "ASCII-art frame") else ("lic", "con")) if tier == "quick" else ("lic", "con", "cop"):
             conds.append(xh.Cond(f"{kind} tag, {what} ({left!r}…{right!r}), two free chars at end", "C02.py", "_tag", {"kind": kind, "left": left, "right": right, "carrier": CARRIERS[kind], "hole": "end", "nfree": 2, "carve": carve}, timeout=tmo * 2, twin="_tag_reach"))
     # other copyright tag spellings
     for tag in ("Copyright", "Copyright (C)", "©", "SPDX-SnippetCopyrightText:", "SPDX-FileCopyrightText: ©"):
